@@ -213,8 +213,12 @@ type World struct {
 	curOp    int
 	callNo   int
 	Trace    []APICall
+	FullTrace []APICall // every API call of galaxy-ipam over the whole history (k = index within its op)
+	opCallNo int
+	lastTraceOp int
 	fault    *Fault
 	faultHit bool
+	faultHitEver bool
 	crashed  bool
 
 	// scheduler hook (nil in sequential mode)
@@ -223,6 +227,14 @@ type World struct {
 
 	// binding log
 	Bindings []BindingRec
+
+	// watch events of labelled (administrator reserved) FloatingIP objects not yet delivered to the IPAM handlers
+	FipEvents []FipEvent
+}
+
+type FipEvent struct {
+	Add bool
+	Obj *v1alpha1.FloatingIP
 }
 
 type BindingRec struct {
@@ -290,7 +302,7 @@ func (l yPoolLister) Pools(ns string) galaxylister.PoolNamespaceLister {
 
 // NewWorld builds trackers, listers and the first plugin instance.
 func NewWorld(topo Topo, useCloud bool, lag bool) (*World, error) {
-	w := &World{Topo: topo, UseCloud: useCloud, Lag: lag, Pods: map[string]*PodRec{},
+	w := &World{Topo: topo, UseCloud: useCloud, Lag: lag, Pods: map[string]*PodRec{}, lastTraceOp: -1,
 		crTruth: map[string]int{}, crView: map[string]int{}}
 	w.Kube = k8sfake.NewSimpleClientset()
 	w.Galaxy = galaxyfake.NewSimpleClientset()
@@ -415,10 +427,17 @@ func (w *World) react(action k8stesting.Action) (bool, k8sruntime.Object, error)
 	w.callNo++
 	n := w.callNo
 	w.Trace = append(w.Trace, APICall{N: n, Verb: action.GetVerb(), Resource: res, Name: actionName(action), Op: w.curOp})
+	if w.curOp != w.lastTraceOp {
+		w.lastTraceOp = w.curOp
+		w.opCallNo = 0
+	}
+	w.opCallNo++
+	w.FullTrace = append(w.FullTrace, APICall{N: w.opCallNo, Verb: action.GetVerb(), Resource: res, Name: actionName(action), Op: w.curOp})
 	f := w.fault
 	hit := f != nil && !w.faultHit && f.K == n
 	if hit {
 		w.faultHit = true
+		w.faultHitEver = true
 	}
 	w.mu.Unlock()
 	if hit {
@@ -432,6 +451,19 @@ func (w *World) react(action k8stesting.Action) (bool, k8sruntime.Object, error)
 			w.applyDirect(action)
 			w.crashed = true
 			runtime.Goexit()
+		}
+	}
+	if action.GetVerb() == "delete" && res == "floatingips" {
+		if da, ok := action.(k8stesting.DeleteAction); ok {
+			if obj, err := w.Galaxy.Tracker().Get(fipGVR, "", da.GetName()); err == nil {
+				if f, ok := obj.(*v1alpha1.FloatingIP); ok {
+					if _, labelled := f.Labels[constant.ReserveFIPLabel]; labelled {
+						w.mu.Lock()
+						w.FipEvents = append(w.FipEvents, FipEvent{false, f})
+						w.mu.Unlock()
+					}
+				}
+			}
 		}
 	}
 	if action.GetVerb() == "create" && res == "pods/binding" {
@@ -973,6 +1005,7 @@ func (w *World) Restart() error {
 		p.Filtered = nil
 	}
 	w.fault = nil
+	w.FipEvents = nil // a fresh informer lists the store; the new IPAM reads it in ConfigurePool
 	return w.StartPlugin()
 }
 
